@@ -144,7 +144,8 @@ prop('C12', ['G7', 'G1', 'G2', 'G3', 'G4', 'G8', 'G5', 'G6', 'L4', 'K6', 'K6py',
      'points validate class and namespace first (G4); references are paired (G5); check-then-act '
      'is one exclusive region and Lookup returns by value (L4); lookup order in engine and Python '
      'twin, and the Python listing lets the namespace entry win (K6, K6py); the namespace asked for is handed down unchanged to every engine function that takes one (NS1); both registries (None-is-node, None-is-leaf) are updated by every register / unregister call (G7); the decorator-factory forms carry every option to the deferred call (G8). '
-     'The Python listing substitutes the insertion-ordered dict entries exactly when flattening in that namespace would (D4).',
+     'The Python listing substitutes the insertion-ordered dict entries exactly when flattening in that namespace would (D4). '
+     'Lookups answer from the live tables: no memo of answers is kept beside them that a registration of another key would leave stale, and the engine\'s lookup path writes no registry member (G9).',
      ['behaviour after arbitrary histories'])
 
 prop('C13', ['D1', 'D2', 'D3', 'D4', 'K2', 'NS1', 'G4', 'D5'],
@@ -159,7 +160,7 @@ prop('C14', ['A1', 'A3', 'A5', 'A6', 'A7', 'G5', 'M3', 'A8'],
      'Immutability / aliasing / GC: inspection methods return fresh containers and all bound '
      'methods are const (A1); tp_traverse visits every Python object a node holds and the fields '
      'are owning types (A3); in-place mutators are applied only to objects created by the same '
-     'call (A5); the Python package reads a mapping of the caller by a computed key only after a key-set comparison has excluded missing keys - a defaultdict would answer such a read by inserting into the tree of the caller (A6) - and mutates in place only containers it created itself (A7); key lists are copies (M3); registry references are paired (G5).',
+     'call (A5); the Python package reads a mapping of the caller by a computed key only after a key-set comparison has excluded missing keys - a defaultdict would answer such a read by inserting into the tree of the caller (A6) - and mutates in place only containers it created itself (A7); key lists are copies (M3); registry references are paired (G5); std::move is applied only to what the call itself owns - never to a C++ object inside a Python object, a reference parameter or a member of *this (A8).',
      ['observational immutability over histories'])
 
 prop('C15', ['E1', 'E2', 'E3', 'E4', 'E5', 'E6', 'K7', 'I2', 'A5', 'D1', 'U1'],
